@@ -131,3 +131,17 @@ def standard_run(pid, tier, seed, plan, level_text=None):
     chk.cov["rule"] = plan.get("rule", "")
     chk.assumptions += plan.get("assumptions", [])
     return chk.finish()
+
+
+def replay_case(pid, case, seed):
+    """./check <ID> --replay <violation file>: re-run the stored scenario and report whether it still fails."""
+    c = case.get("case", case)
+    exe = vkit.cc("eventcore_drv", ["eventcore_drv.c"], vclock=True)
+    outs = vkit.run_driver(exe, [{"cfg": c["cfg"], "h": c["h"]}], shards=1)
+    fails = vkit.compare_histories([c["h"]], outs)
+    if fails:
+        print("VIOLATION property=%s replay=%s" % (pid, "(replayed)"))
+        vkit.log("  step %d: %s" % (fails[0][1], fails[0][2]))
+        return 1
+    print("replay: scenario conforms to the specification")
+    return 0
